@@ -103,7 +103,10 @@ func (interp *Interpreter) run(n *node, cf *frame) {
 	if cf == nil {
 		f = interp.frame
 	} else {
-		f = newFrame(cf, len(n.types), interp.runid())
+		// The new frame belongs to the execution in progress: it takes the run id of
+		// its ancestor (set when the execution started), not the current one, which
+		// has moved on if the execution was cancelled in the meantime.
+		f = newFrame(cf, len(n.types), cf.runid())
 	}
 	interp.mutex.RLock()
 	c := reflect.ValueOf(interp.done)
